@@ -414,6 +414,50 @@ def near_duplicate(rng, q):
     return c
 
 
+def gen_query_string(rng, depth=2):
+    """A query string in the default parser language over the model vocabulary (incl. stop words, which the analyzer
+    removes: the parser then produces NullQuery clauses and relies on normalize() to drop them)."""
+    from vf import model
+
+    def word():
+        r = rng.random()
+        if r < 0.12:
+            return rng.choice(["the", "and", "of", "a"])
+        if r < 0.2:
+            return rng.choice(["al*", "b?avo", "*a", "brav*", "a[lb]*"])
+        return model.zipf_choice(rng, model.VOCAB)
+
+    def atom():
+        r = rng.random()
+        f = rng.choice(["", "", "", "t:", "u:", "k:"])
+        if r < 0.55:
+            a = f + (rng.choice(model.KVOCAB) if f == "k:" else word())
+        elif r < 0.7:
+            a = (f if f != "k:" else "u:") + '"%s"' % " ".join(word() for _ in range(rng.randint(1, 3))) + rng.choice(["", "", "~2"])
+        elif r < 0.85:
+            lo, hi = sorted([rng.choice(RANGE_POOL["t"]), rng.choice(RANGE_POOL["t"])])
+            a = "%s%s%s TO %s%s" % (f if f != "k:" else "t:", rng.choice("[{"), rng.choice([lo, ""]), rng.choice([hi, ""]), rng.choice("]}"))
+        elif r < 0.92:
+            a = "n:%s%d TO %d%s" % (rng.choice("[{"), rng.randint(-6, 0), rng.randint(0, 6), rng.choice("]}"))
+        else:
+            a = rng.choice(["*", "t:*", "u:*", "*:*"])
+        if rng.random() < 0.12:
+            a += "^%s" % rng.choice(["2", "0.5"])
+        return a
+
+    def expr(d):
+        if d == 0 or rng.random() < 0.3:
+            return atom()
+        r = rng.random()
+        if r < 0.12:
+            return "NOT " + expr(d - 1)
+        if r < 0.3:
+            return "(" + expr(d - 1) + ")"
+        op = rng.choice([" ", " ", " AND ", " AND ", " OR ", " OR ", " ANDNOT ", " ANDMAYBE ", " REQUIRE ", " AND NOT "])
+        return op.join(expr(d - 1) for _ in range(rng.randint(2, 3)))
+    return expr(depth)
+
+
 def walk(q):
     yield q
     if is_null(q):
@@ -1032,10 +1076,28 @@ def run(ctx):
         try:
             with built.ix.searcher() as s:
                 case = Case(ctx, built, s, wb)
-                for _ in range(14):
+                parsers = None
+                for k in range(14):
                     mode = rng.choice(["A1", "A1", "A1", "A2", "B", "B"])
                     q = Gen(rng, mode, nested=nested).tree(rng.choice([1, 2, 2, 3, 3, 4]))
                     q2 = Gen(rng, mode, nested=nested).tree(rng.choice([0, 1, 2]))
+                    if k >= 11 and not nested:
+                        # tree source 2: what the query parser builds BEFORE it applies normalize() (statement: "normalize() -
+                        # which the query parser applies to everything it returns"); parser errors are C16's subject
+                        from whoosh import qparser
+                        if parsers is None:
+                            parsers = [qparser.QueryParser("t", built.ix.schema), qparser.QueryParser("t", built.ix.schema, group=qparser.OrGroup),
+                                       qparser.MultifieldParser(["t", "u"], built.ix.schema)]
+                        text = gen_query_string(rng, rng.choice([1, 2, 2, 3]))
+                        try:
+                            q = rng.choice(parsers).parse(text, normalize=False)
+                            ctx.count("c15.parser.trees")
+                        except Exception:  # noqa
+                            ctx.count("c15.parser.parse_error")
+                            continue
+                        case.wb = dict(wb, parsed_from=text)
+                    else:
+                        case.wb = wb
                     exp, pop = check_tree(case, rng, q, q2)
                     nontrivial = exp is not None and 0 < len(exp) < len(built.live)
                     if nontrivial:
